@@ -1,6 +1,6 @@
 use crate::parse::ast::Node;
 use crate::parse::ast::AST;
-use crate::parse::definition::parse_fun_arg;
+use crate::parse::definition::{check_parameters, parse_fun_arg};
 use crate::parse::expression::parse_inner_expression;
 use crate::parse::iterator::LexIterator;
 use crate::parse::lex::token::Token;
@@ -19,6 +19,7 @@ pub fn parse_anon_fun(it: &mut LexIterator) -> ParseResult {
     })?;
 
     it.eat(&Token::BTo, "anonymous function")?;
+    check_parameters(&args)?;
 
     let body = it.parse(&parse_expression, "anonymous function", start)?;
     let node = Node::AnonFun {
